@@ -147,7 +147,7 @@ MAIN = contract(
     loops={1: LoopSpec(inv_pad, fingerprint='start_pos, data_len'),
            2: LoopSpec(inv_mac, fingerprint='start_pos, end_pos'),
            3: LoopSpec(inv_cmp, fingerprint='mac.digest_size')},
-    prop='C12',
+    prop=('C12', 'C01', 'C02'),
     doc='returns True exactly when the body ends in an allowed padding preceded by the correct MAC',
 )
 
